@@ -188,7 +188,12 @@ fn job(j: &Job, tier: Tier) -> Vec<(String, String, Value)> {
         if j.toml && !tier.is_thorough() && li % 3 != 0 {
             continue;
         }
-        let Some(p) = perturb(&doc, path) else { continue };
+        let Some(mut p) = perturb(&doc, path) else { continue };
+        // every third perturbed file also claims not to be finalised (a file edited or assembled by hand): the changed
+        // statistic is a changed statistic all the same
+        if li % 3 == 2 && p.get("is_finalized").is_some() {
+            p["is_finalized"] = json!(false);
+        }
         let ptext = if j.toml {
             match toml::to_string(&p) {
                 Ok(t) => t,
